@@ -923,7 +923,15 @@ TABLE["D.ar_numpy.sign"] = _unary(_sign)
 @reg("D.ar_numpy.asarray", "D.ar_numpy.to_numpy", "D.ar_numpy.atleast_1d",
      "D.astype", "numpy.asarray", "float", "D.ar_numpy.array", "D.ar_numpy.squeeze")
 def _identity(ex, st, ctx, args, kwargs):
-    return args[0]
+    v = args[0]
+    dt = kwargs.get("dtype")
+    if isinstance(dt, str) and dt.startswith("dtype:") and id(v) in ex.dtype_tags and ex.dtype_tags[id(v)][0] != dt[6:] and is_z3(v) and v.sort() == z3.RealSort():
+        # conversion to the dtype of *another* array (dtype provenance is tracked only where a harness tagged its inputs): the value is
+        # rounded to that type -- some value of that type, not necessarily the one given (over-approximation: nothing is assumed about it)
+        r = z3.Real(fresh_name("cast_" + dt[6:]))
+        ex.dtype_tags[id(r)] = (dt[6:], r)
+        return r
+    return v
 
 
 @reg("D.ar_numpy.copy", "D.ar_numpy.clone")
@@ -976,6 +984,11 @@ def _arange(ex, st, ctx, args, kwargs):
 
 @reg("D.epsilon")
 def _epsilon(ex, st, ctx, args, kwargs):
+    if args and isinstance(args[0], str) and args[0].startswith("dtype:"):
+        # dtype provenance tracked by the harness: the epsilon of that array's type (positive, otherwise unrelated to other types')
+        e = z3.Real("eps_" + args[0][6:])
+        st.assume(e > 0)
+        return e
     return ex.eps
 
 
